@@ -80,7 +80,7 @@ def plan(tier, seed):
                       'multi-chain files; selections: every non-empty proper subset of the chain ids (inputs with > 4 chains: '
                       'singletons and their complements), each given in both flag orders for 2-subsets; for corpus inputs every selection is '
                       'also run together with -i (first residue of a selected chain / of a deleted chain / both), -d and -k on both '
-                      'sides; propka.run.main on three files with one selection. non-trivial = distinct '
+                      'sides; unparsable records in an unselected chain; segment-identifier text next to blank chain ids; propka.run.main on three files with one selection. non-trivial = distinct '
                       '(input, selection) whose selected part contains at least one group'),
                 bounds=dict(inputs=len(ins)), samples=[ins[0], ins[-1]])
 
@@ -180,14 +180,42 @@ def run_case(case, ctx, acc):
         acc.skipped += 1
         return
     text = gen.to_text(s)
-    for sel, co in ((sel, co) for sel in selections(chains) for co in co_options(s, sel, case, ctx.tier)):
+    jobs = [(sel, co, None) for sel in selections(chains) for co in co_options(s, sel, case, ctx.tier)]
+    # records of an unselected chain that cannot be parsed (hybrid-36 residue number, overflowed coordinates, cut short): they are not
+    # part of the selection, and the file without them is fine
+    for sel in selections(chains)[:4]:
+        other = [c for c in chains if c not in sel]
+        if other and other[0].strip():
+            jobs.append((sel, (), 'unreadable-records-in-unselected-chain'))
+    # text in the segment-identifier columns 73-76 (also one that starts with the id of another chain) next to blank chain ids
+    if ' ' in chains:
+        for sel in selections(chains)[:6]:
+            jobs.append((sel, (), 'segid-PROA'))
+            jobs.append((sel, (), 'segid-of-other-chain'))
+    for sel, co, special in jobs:
         opts = list(co)
         for c in sel:
             opts += ['-c', c]
-        deleted = gen.to_text([i for i in s.items if isinstance(i, str) or i.chain in sel])
-        sub = dict(case, sel=sel, co=list(co))
+        text_c, items_c = text, s.items
+        if special == 'unreadable-records-in-unselected-chain':
+            oc = [c for c in chains if c not in sel][0]
+            bad = ['ATOM   9001  CA  ALA %sA000     ********   0.000   0.000  1.00  0.00           C\n' % oc,
+                   'ATOM   9002  CB  ALA %s 900       1.000\n' % oc, 'HETATM 9003 ZN    ZN %s 901     ' % oc + 'x' * 24 + '  1.00  0.00          ZN\n']
+            text_c = text + ''.join(bad)
+        elif special and special.startswith('segid'):
+            nonblank = [c for c in chains if c.strip()]
+            seg = 'PROA' if special == 'segid-PROA' else ((nonblank[0] if nonblank else 'Q') + '2  ')
+            items_c = []
+            for it in s.items:
+                if not isinstance(it, str):
+                    it = it.clone()
+                    it.tail = (it.tail.ljust(14))[:6] + seg + (it.tail.ljust(14))[10:]
+                items_c.append(it)
+            text_c = gen.to_text(items_c)
+        deleted = gen.to_text([i for i in items_c if isinstance(i, str) or i.chain in sel])
+        sub = dict(case, sel=sel, co=list(co), special=special)
         try:
-            m1 = pk.run(text, opts, write=True)
+            m1 = pk.run(text_c, opts, write=True)
             r1 = pk.record(m1, text=m1._pka_text)
             e1 = None
         except ValueError as exc:
@@ -202,7 +230,7 @@ def run_case(case, ctx, acc):
         if r1 is None or r2 is None:
             if (r1 is None) != (r2 is None):
                 acc.viols.append(Viol(sub, 'chain-select', 'rejection-differs', 'with -c: %r, deleted file: %r' % (e1, e2),
-                                      inputs=dict(pdb=text, opts=opts, deleted=deleted)))
+                                      inputs=dict(pdb=text_c, opts=opts, deleted=deleted)))
             acc.outcomes['rejected'] += 1
             continue
         ng = sum(1 for g in r2['confs']['AVR']['groups'])
@@ -212,5 +240,5 @@ def run_case(case, ctx, acc):
         d = cmp.diff_records(r1, r2, tol=0.0)
         if d:
             acc.viols.append(Viol(sub, 'chain-select', 'selection-differs-from-deletion/%s' % d[0][0],
-                                  '-c %s %s: first difference %s' % (sel, ' '.join(co), str(d[0])[:300]), detail=[str(x)[:200] for x in d[:5]],
-                                  inputs=dict(pdb=text, opts=opts, deleted=deleted)))
+                                  '-c %s %s %s: first difference %s' % (sel, ' '.join(co), special or '', str(d[0])[:300]), detail=[str(x)[:200] for x in d[:5]],
+                                  inputs=dict(pdb=text_c, opts=opts, deleted=deleted)))
